@@ -40,6 +40,7 @@ var ghostIOComps = []ghostComp{
 	{"ghost.iofail", func(x *Exec) Sort { return SBool }},
 	{"ghost.fisize", func(x *Exec) Sort { return SArr(SInt, x.idxSort()) }},
 	{"ghost.wflushed", func(x *Exec) Sort { return SArr(SInt, x.idxSort()) }},
+	{"ghost.rended", func(x *Exec) Sort { return SArr(SInt, SBool) }},
 }
 
 func (x *Exec) gcomp(st *State, name string) *Term {
@@ -266,9 +267,9 @@ func init() {
 		c := x.c
 		x.expr(st, e.Args[0])
 		x.nilCheck(st, recv.T, "ReadString on nil reader")
-		x.ioFail(st, "readstring")
 		s := x.freshVal(st, "readstring", types.Typ[types.String])
 		err := x.freshErr(st, "readstring_err")
+		x.readerErr(st, recv.T, err.T, "readstring")
 		n := c.App("str_len", s.T)
 		x.assume(st, x.idxLe(x.idxLit(0), n))
 		x.assume(st, c.Implies(c.Eq(err.T, c.Int(0)), x.idxLe(x.idxLit(1), n)))
@@ -279,14 +280,15 @@ func init() {
 	}
 	libMods["bufio.Reader.ReadString"] = func(x *Exec, ms *modSet, e *ast.CallExpr) {
 		ms.addAt("ghost.rpos", SArr(SInt, x.idxSort()), recvExpr(e), x.info)
+		ms.addAt("ghost.rended", SArr(SInt, SBool), recvExpr(e), x.info)
 		ms.add("ghost.iofail", SBool)
 	}
 	libModels["bufio.Reader.ReadByte"] = func(x *Exec, st *State, e *ast.CallExpr, recv *Val) []Val {
 		c := x.c
 		x.nilCheck(st, recv.T, "ReadByte on nil reader")
-		x.ioFail(st, "readbyte")
 		b := x.freshVal(st, "readbyte", u8)
 		err := x.freshErr(st, "readbyte_err")
+		x.readerErr(st, recv.T, err.T, "readbyte")
 		pos := x.gsel(st, "ghost.rpos", recv.T)
 		x.gset(st, "ghost.rpos", recv.T, c.Ite(c.Eq(err.T, c.Int(0)), x.idxAdd(pos, x.idxLit(1)), pos))
 		x.assumed["bufio.Reader.ReadByte: any byte or any error; the reader advances by one on success"] = true
@@ -294,6 +296,7 @@ func init() {
 	}
 	libMods["bufio.Reader.ReadByte"] = func(x *Exec, ms *modSet, e *ast.CallExpr) {
 		ms.addAt("ghost.rpos", SArr(SInt, x.idxSort()), recvExpr(e), x.info)
+		ms.addAt("ghost.rended", SArr(SInt, SBool), recvExpr(e), x.info)
 		ms.add("ghost.iofail", SBool)
 	}
 	libModels["io.ReadFull"] = func(x *Exec, st *State, e *ast.CallExpr, recv *Val) []Val {
@@ -316,12 +319,14 @@ func init() {
 		x.assume(st, c.Implies(c.And(short, x.idxLt(zero, avail)), c.And(c.Eq(err.T, ueof), c.Eq(n.T, avail))))
 		x.assume(st, c.Implies(fail, c.And(c.Neq(err.T, eof), c.Neq(err.T, ueof))))
 		x.gset(st, "ghost.rpos", r.T, x.idxAdd(pos, n.T))
+		x.gset(st, "ghost.rended", r.T, c.Or(x.gsel(st, "ghost.rended", r.T), short))
 		x.assumed["io.ReadFull on a bufio.Reader: delivers the next len(buf) bytes of the ghost file at the reader's position; io.EOF iff nothing left, io.ErrUnexpectedEOF iff partly"] = true
 		return []Val{n, err}
 	}
 	libMods["io.ReadFull"] = func(x *Exec, ms *modSet, e *ast.CallExpr) {
 		ms.add(memComp(u8), x.memSort(u8))
 		ms.addAt("ghost.rpos", SArr(SInt, x.idxSort()), e.Args[0], x.info)
+		ms.addAt("ghost.rended", SArr(SInt, SBool), e.Args[0], x.info)
 		ms.add("ghost.iofail", SBool)
 		ms.add("G.io.EOF", SInt)
 	}
@@ -445,6 +450,10 @@ func registerGhostIO(e *Engine) {
 		w := x.expr(st, e.Args[0])
 		return []Val{{Typ: intT, T: x.gsel(st, "ghost.wlen", w.T)}}
 	}
+	g["inputEnded"] = func(x *Exec, st *State, e *ast.CallExpr) []Val { // the reader hit the end of its input (sticky)
+		r := x.expr(st, e.Args[0])
+		return []Val{{Typ: types.Typ[types.Bool], T: x.gsel(st, "ghost.rended", r.T)}}
+	}
 	g["streamFlushed"] = func(x *Exec, st *State, e *ast.CallExpr) []Val {
 		w := x.expr(st, e.Args[0])
 		return []Val{{Typ: intT, T: x.gsel(st, "ghost.wflushed", w.T)}}
@@ -470,4 +479,14 @@ func recvExpr(e *ast.CallExpr) ast.Expr {
 		return se.X
 	}
 	return nil
+}
+
+// readerErr: a read on a buffered reader reports an error exactly when the environment failed
+// (sticky ghost.iofail) or the input ended (sticky per reader, ghost.rended).
+func (x *Exec) readerErr(st *State, r, err *Term, what string) {
+	c := x.c
+	fail := x.ioFail(st, what)
+	ended := c.Fresh("ended_"+what, SBool)
+	x.assume(st, c.Eq(c.Neq(err, c.Int(0)), c.Or(fail, ended)))
+	x.gset(st, "ghost.rended", r, c.Or(x.gsel(st, "ghost.rended", r), ended))
 }
